@@ -450,17 +450,14 @@ Proof.
   cbn [INR]. rewrite Rmult_0_l. apply sine_sum_0.
 Qed.
 
-(* g(r) -> S(Q) -> g(r): only g = 1 at the LAST grid point is needed (so that
-   G = 4 pi rho r (g-1) vanishes there; at r = 0 it vanishes by itself).  The
-   result is g away from r = 0 and the conventional g = 1 at r = 0. *)
-Theorem roundtrip_g_S_g (N : nat) (dr : R) (g : list R) d1 d2 (k : kw R) :
-  (0 < N)%nat -> 0 < dr -> plain k -> 0 < rho k ->
+(* the whole chain collapses to "convert to G and back" *)
+Lemma g_S_g_vals (N : nat) (dr : R) (g : list R) d1 d2 (k : kw R) :
+  (0 < N)%nat -> 0 < dr -> plain k ->
   length g = S N -> nth N g 0 = 1 ->
-  forall j, (j <= N)%nat ->
-  nth j (vals (S_to_g (qgrid N dr) (vals (g_to_S (rgrid N dr) g (qgrid N dr) d1 k)) (rgrid N dr) d2 k)) 0
-  = if Nat.eqb j 0 then 1 else nth j g 0.
+  vals (S_to_g (qgrid N dr) (vals (g_to_S (rgrid N dr) g (qgrid N dr) d1 k)) (rgrid N dr) d2 k)
+  = map2 (gval k gG gg) (grid N dr) (map2 (gval k gg gG) (grid N dr) g).
 Proof.
-  intros HN Hdr Hk Hp L gN j Hj.
+  intros HN Hdr Hk L gN.
   pose proof (dq_pos N dr HN Hdr) as Hdq.
   rewrite S_to_g_vals, g_to_S_vals, rgrid_grid, qgrid_grid.
   set (dq := PI / (INR N * dr)) in *.
@@ -479,21 +476,35 @@ Proof.
   rewrite (map2_cancel_grid (rval k rS rF) (rval k rF rS)); auto using SF_at0, SF_cancel, ft_grid_nth0.
   2:{ rewrite ft_length. apply grid_length. }
   rewrite F_to_G_ft by (rewrite ?ft_length; auto).
-  rewrite rQr_ft by assumption.
+  unfold dq. rewrite rQr_ft by assumption.
   rewrite G_to_g_fst by (rewrite grid_length; exact LG).
-  unfold G. apply map2_cancel_grid_nth; auto using gG_at0, gG_cancel.
+  reflexivity.
 Qed.
 
-(* S(Q) -> g(r) -> S(Q): only S = 1 at the LAST grid point is needed.  The
-   result is S away from Q = 0 and the conventional S = 1 at Q = 0. *)
-Theorem roundtrip_S_g_S (N : nat) (dr : R) (s : list R) d1 d2 (k : kw R) :
+(* g(r) -> S(Q) -> g(r): only g = 1 at the LAST grid point is needed (so that
+   G = 4 pi rho r (g-1) vanishes there; at r = 0 it vanishes by itself).  The
+   result is g away from r = 0 and the conventional g = 1 at r = 0. *)
+Theorem roundtrip_g_S_g (N : nat) (dr : R) (g : list R) d1 d2 (k : kw R) :
+  (0 < N)%nat -> 0 < dr -> plain k -> 0 < rho k ->
+  length g = S N -> nth N g 0 = 1 ->
+  let g' := vals (S_to_g (qgrid N dr) (vals (g_to_S (rgrid N dr) g (qgrid N dr) d1 k)) (rgrid N dr) d2 k) in
+  length g' = S N /\ nth 0 g' 0 = 1 /\ forall j, (0 < j <= N)%nat -> nth j g' 0 = nth j g 0.
+Proof.
+  intros HN Hdr Hk Hp L gN g'. unfold g'. rewrite g_S_g_vals by assumption.
+  split; [|split].
+  - rewrite !map2_length, grid_length, L, !Nat.min_id. reflexivity.
+  - rewrite (map2_cancel_grid_nth _ _ 1 N dr g 0); auto using gG_at0, gG_cancel. lia.
+  - intros j Hj. rewrite (map2_cancel_grid_nth _ _ 1 N dr g j); auto using gG_at0, gG_cancel; [|lia].
+    destruct j; [lia|reflexivity].
+Qed.
+
+Lemma S_g_S_vals (N : nat) (dr : R) (s : list R) d1 d2 (k : kw R) :
   (0 < N)%nat -> 0 < dr -> plain k -> 0 < rho k ->
   length s = S N -> nth N s 0 = 1 ->
-  forall j, (j <= N)%nat ->
-  nth j (vals (g_to_S (rgrid N dr) (vals (S_to_g (qgrid N dr) s (rgrid N dr) d1 k)) (qgrid N dr) d2 k)) 0
-  = if Nat.eqb j 0 then 1 else nth j s 0.
+  vals (g_to_S (rgrid N dr) (vals (S_to_g (qgrid N dr) s (rgrid N dr) d1 k)) (qgrid N dr) d2 k)
+  = map2 (rval k rF rS) (grid N (PI / (INR N * dr))) (map2 (rval k rS rF) (grid N (PI / (INR N * dr))) s).
 Proof.
-  intros HN Hdr Hk Hp L sN j Hj.
+  intros HN Hdr Hk Hp L sN.
   pose proof (dq_pos N dr HN Hdr) as Hdq.
   rewrite g_to_S_vals, S_to_g_vals, rgrid_grid, qgrid_grid.
   set (dq := PI / (INR N * dr)) in *.
@@ -515,8 +526,26 @@ Proof.
   rewrite G_to_F_ft by (rewrite ?map_length, ?ft_length; auto).
   unfold dq. rewrite QrQ_ft by assumption. fold dq.
   rewrite F_to_S_fst by (rewrite grid_length; exact LF).
-  unfold F. apply map2_cancel_grid_nth; auto using FS_at0, FS_cancel.
+  reflexivity.
 Qed.
+
+(* S(Q) -> g(r) -> S(Q): only S = 1 at the LAST grid point is needed.  The
+   result is S away from Q = 0 and the conventional S = 1 at Q = 0. *)
+Theorem roundtrip_S_g_S (N : nat) (dr : R) (s : list R) d1 d2 (k : kw R) :
+  (0 < N)%nat -> 0 < dr -> plain k -> 0 < rho k ->
+  length s = S N -> nth N s 0 = 1 ->
+  let s' := vals (g_to_S (rgrid N dr) (vals (S_to_g (qgrid N dr) s (rgrid N dr) d1 k)) (qgrid N dr) d2 k) in
+  length s' = S N /\ nth 0 s' 0 = 1 /\ forall j, (0 < j <= N)%nat -> nth j s' 0 = nth j s 0.
+Proof.
+  intros HN Hdr Hk Hp L sN s'. unfold s'. rewrite S_g_S_vals by assumption.
+  pose proof (dq_pos N dr HN Hdr) as Hdq.
+  split; [|split].
+  - rewrite !map2_length, grid_length, L, !Nat.min_id. reflexivity.
+  - rewrite (map2_cancel_grid_nth _ _ 1 N _ s 0); auto using FS_at0, FS_cancel. lia.
+  - intros j Hj. rewrite (map2_cancel_grid_nth _ _ 1 N _ s j); auto using FS_at0, FS_cancel; [|lia].
+    destruct j; [lia|reflexivity].
+Qed.
+
 
 Example roundtrip_g_S_g_nonvacuous :
   (0 < 2)%nat /\ 0 < 1 /\ plain plain_kw /\ 0 < rho plain_kw /\
@@ -527,8 +556,7 @@ Proof.
   assert (P : plain plain_kw) by (split; reflexivity).
   assert (Hr : 0 < rho plain_kw) by (cbn; lra).
   repeat (split; [first [lia | lra | reflexivity | exact P | exact Hr]|]).
-  rewrite (roundtrip_g_S_g 2 1 [5; 3; 1] None None plain_kw) by (auto; first [lra | lia | reflexivity]).
-  reflexivity.
+  apply (roundtrip_g_S_g 2 1 [5; 3; 1] None None plain_kw); auto; first [lra | lia | reflexivity].
 Qed.
 Example roundtrip_S_g_S_nonvacuous :
   (0 < 2)%nat /\ 0 < 1 /\ plain plain_kw /\ 0 < rho plain_kw /\
@@ -539,6 +567,5 @@ Proof.
   assert (P : plain plain_kw) by (split; reflexivity).
   assert (Hr : 0 < rho plain_kw) by (cbn; lra).
   repeat (split; [first [lia | lra | reflexivity | exact P | exact Hr]|]).
-  rewrite (roundtrip_S_g_S 2 1 [5; 3; 1] None None plain_kw) by (auto; first [lra | lia | reflexivity]).
-  reflexivity.
+  apply (roundtrip_S_g_S 2 1 [5; 3; 1] None None plain_kw); auto; first [lra | lia | reflexivity].
 Qed.
